@@ -19,6 +19,11 @@ ASSUMPTIONS = ["comparison operators of items are not user callables in the sens
 
 def cases(tier, rng):
     from props import c01
+    for outer in ("gen", "iter", "agen"):
+        for pages in ([], [[1]], [[1, 2], [3]], [[], [1], [], [2, 3]], [[1], [2], [3], [4]]):
+            for take in range(0, sum(map(len, pages)) + 2):
+                yield {"tool": "chain", "family": "lazyouter", "outer": outer, "pages": pages, "take": take, "srcs": [], "params": {}, "fns": [],
+                       "cons": {"fin": "close", "take": take}}
     for c in c01._tee_cases(tier):        # tee children: items fetched from the source after every single advance
         if c["srcs"][0]["kind"] != "list":
             yield c
@@ -33,7 +38,53 @@ def _proj(vis, out):
     return [vis, s1._ref_out(out)]
 
 
+def _run_lazy_outer(case, sync):
+    """chain.from_iterable over a LAZY outer iterable (a generator / iterator / async generator of pages): the outer source is
+    asked for page k only when page k-1 is exhausted, and for nothing before the first item is requested"""
+    import itertools as _it
+    from world import asyncstdlib, drive
+    log = []
+    pages = case["pages"]
+
+    def outer_gen():
+        for k, page in enumerate(pages):
+            log.append(["outer", k])
+            yield list(page)
+        log.append(["outer-end"])
+
+    async def outer_agen():
+        for k, page in enumerate(pages):
+            log.append(["outer", k])
+            yield list(page)
+        log.append(["outer-end"])
+    if sync:
+        it = _it.chain.from_iterable(outer_gen())
+    else:
+        outer = {"gen": outer_gen, "agen": outer_agen, "iter": lambda: iter(outer_gen())}[case["outer"]]()
+        it = asyncstdlib.chain.from_iterable(outer)
+    log.append(["constructed"])
+    for _ in range(case["take"]):
+        if sync:
+            try:
+                log.append(["item", next(it)])
+            except StopIteration:
+                log.append(["end"])
+                break
+        else:
+            res = drive(it.__anext__())
+            if res.exc is None:
+                log.append(["item", res.value])
+            else:
+                log.append(["end"] if isinstance(res.exc, StopAsyncIteration) else ["raised", type(res.exc).__name__])
+                break
+    if not sync:
+        drive(it.aclose())
+    return log
+
+
 def observe(case):  # noqa: F811
+    if case.get("family") == "lazyouter":
+        return {"async_log": _run_lazy_outer(case, False), "sync_log": _run_lazy_outer(case, True)}
     if case.get("family") == "tee":
         from props import c01
         return c01.observe(case)
@@ -41,12 +92,22 @@ def observe(case):  # noqa: F811
 
 
 def model_request(case):  # noqa: F811
+    if case.get("family") == "lazyouter":
+        return None
     if case.get("family") == "tee":
         return None          # the schedule-level machine of tee is C09's
     return s1.model_request(case)
 
 
+def nontrivial(case, obs):  # noqa: F811
+    if case.get("family") == "lazyouter":
+        return len(obs["async_log"]) > 1
+    return s1.nontrivial(case, obs)
+
+
 def features(case, obs):  # noqa: F811
+    if case.get("family") == "lazyouter":
+        return ["tool=chain.from_iterable", "outer=" + case["outer"]]
     if case.get("family") == "tee":
         return ["tool=tee", "kind=" + case["srcs"][0]["kind"]]
     return s1.features(case, obs)
@@ -70,6 +131,10 @@ def _drop_repolls(vis):
 
 def judge(case, obs, model):
     issues = []
+    if case.get("family") == "lazyouter":
+        if obs["async_log"] != obs["sync_log"]:
+            issues.append(Issue("oracle", {"asyncstdlib": obs["async_log"], "itertools": obs["sync_log"]}, "order-differs:chain.from_iterable:lazy-outer"))
+        return issues
     if case.get("family") == "tee":
         a, b = obs["tee_async"], obs["tee_sync"]
         if (a["out"], a["ends"]) == (b["out"], b["ends"]) and a.get("fetched_after") != b.get("fetched_after"):
